@@ -453,6 +453,7 @@ def _run(ctx: kernel.Ctx, prop: str, case: Dict[str, Any], loc: Dict[str, Any]) 
             m2 = m if inplace else m.clone()
             if inplace:
                 ctx.probe("mutated_in_place")
+                comp = None  # the follow-the-dict protocol is Mutations' (always on fresh clones): a policy mutated on its own leaves the pair for good
             if not c3 and not inplace:
                 m2.eval()
                 with torch.no_grad():
